@@ -13,3 +13,7 @@ open Uflow.Props.C15
 #print axioms C15_no_trap_partial
 #print axioms C15_ackInv_init
 #print axioms C15_ackInv_push
+#print axioms C15_winv_reachable
+#print axioms C15_no_trap
+#print axioms C15_run_no_trap
+#print axioms C15_ackInv_cull_ops
